@@ -97,7 +97,7 @@ func AutoLoad(s *eval.State, options Options) error {
 	var errs []error
 	for scanner.Scan() {
 		line := scanner.Text()
-		_, err = eval.EvalString(s, line, false)
+		err = autoLoadLine(s, line)
 		if err == nil {
 			count++
 			continue
@@ -120,11 +120,30 @@ func AutoLoad(s *eval.State, options Options) error {
 	return errors.Join(errs...)
 }
 
-func AutoSave(s *eval.State, options Options) error {
+// autoLoadLine evaluates one saved binding; a guard refusing it (a value saved by a session with a larger memory
+// budget, or under a higher depth limit) is an error for that line like any other, not the end of the host process.
+func autoLoadLine(s *eval.State, line string) (err error) {
+	defer func() {
+		if r := recover(); r != nil {
+			s.Reset()
+			err = fmt.Errorf("panic: %v", r)
+		}
+	}()
+	_, err = eval.EvalString(s, line, false)
+	return err
+}
+
+func AutoSave(s *eval.State, options Options) (err error) {
 	if !options.AutoSave {
 		log.Debugf("Autosave disabled")
 		return nil
 	}
+	defer func() {
+		if r := recover(); r != nil { // (the printed form of a value can be refused by the memory guard.)
+			err = fmt.Errorf("panic: %v", r)
+			log.Errf("Error auto saving: %v", err)
+		}
+	}()
 	oldS, newS := s.UpdateNumSet()
 	updates := newS - oldS
 	if updates == 0 {
